@@ -6,6 +6,7 @@ FILE = "robotpy_ext/misc/precise_delay.py"
 PROPS = ["C16"]
 
 CLASSES = {
+    "ExcInfo": {"fields": {}},       # the (type, value, traceback) arguments of __exit__: arbitrary objects or None
     "NotifierDelay": {
         "fields": {"delay_period": "Int", "_notifier": "Ref:Handle", "_expiry_time": "Int", "g_t0": "Int", "g_k": "Int"},
         "alias": {"P": "self.delay_period", "h": "self._notifier", "t0": "self.g_t0", "k": "self.g_k"},
@@ -60,7 +61,7 @@ CONTRACTS = {
         },
     },
     "NotifierDelay.__exit__": {
-        "receivers": ["NotifierDelay"], "params": {"exc_type": "py", "exc_val": "py", "exc_tb": "py"}, "inv": True,
+        "receivers": ["NotifierDelay"], "params": {"exc_type": "Ref:ExcInfo", "exc_val": "Ref:ExcInfo", "exc_tb": "Ref:ExcInfo"}, "inv": True,
         "modifies": ["self._notifier", "Handle.stops[*]", "Handle.cleaned[*]"],
         "ensures": {"C16.F4 leaving the with-block releases the notifier": "h is None"},
     },
